@@ -119,6 +119,18 @@ Theorem C01_exact_number_of_winners_cfer_partial : forall A S (ZL : zlike A S) c
 Proof. exact count_winners_cfer. Qed.
 Print Assumptions C01_exact_number_of_winners_cfer_partial.
 
+(* ... and wigm-prf WITH sure-loser batches (wigm-prf-batch): no hypothesis on cf_batch.  A batch stops at "hopefuls minus seats
+   left" candidates (C07_batch_of_sure_losers_partial), its members are distinct hopefuls, so the seats can still be filled
+   after it (Proofs/WinnersBatch.v) *)
+From Droop Require Import Proofs.WinnersBatch.
+Theorem C01_exact_number_of_winners_prf_batch_partial : forall A S (ZL : zlike A S) cfg,
+  cf_method cfg = MWigm -> exact A = false -> 0 <= cf_nballots cfg -> 0 <= cf_nseats cfg ->
+  forall pr fuel s k, wf_profile pr -> cf_nballots cfg = ballot_total pr ->
+  exec (@crashed A) fuel (count_cmd A cfg RWigmPrf) (init_state A cfg pr) = Some (s, k) -> k <> Abort ->
+  nlen (electeds A s) = Z.min (cf_nseats cfg) (nlen (eligibles A s)).
+Proof. exact count_winners_prf_any. Qed.
+Print Assumptions C01_exact_number_of_winners_prf_batch_partial.
+
 (* NO WITHDRAWN CANDIDATE IS CREDITED WITH A VOTE (third clause), at the end of every count that ends without a crash:
    the Gregory family (part of the whole-run invariant of C02/C06) and meek / warren (candidates that are neither hopeful
    nor elected hold nothing). *)
